@@ -4,15 +4,36 @@ Local Open Scope N_scope.
 
 Lemma Ns_eqb_refl l : Ns_eqb l l = true.
 Proof. induction l; cbn; [reflexivity|]. rewrite N.eqb_refl. exact IHl. Qed.
+Lemma etag_eqb_multi_refl ds n : etag_eqb (Multi ds n) (Multi ds n) = true.
+Proof. cbn. rewrite Ns_eqb_refl, Nat.eqb_refl. reflexivity. Qed.
+Lemma cks_eqb_refl c : c <> GarbledC -> cks_eqb c c = true.
+Proof.
+  destruct c; cbn; intros H; try (rewrite ?N.eqb_refl, ?Ns_eqb_refl, ?Nat.eqb_refl; reflexivity). congruence.
+Qed.
+Lemma mk_comb_not_garbled ds : mk_comb ds <> GarbledC.
+Proof. destruct ds as [|a [|b r]]; cbn; discriminate. Qed.
 
 (* a part is damaged: its bytes are gone or differ from what was recorded *)
 Definition damaged (p : part) : Prop := actual p = None \/ exists a, actual p = Some a /\ a <> rec p.
 Definition corrupted (o : obj) : Prop := exists p, In p (parts o) /\ damaged p.
 
-(* how the storage records ETags: PutObject -> the digest of the single part; multipart/append ->
-   derived from the recorded part ETags *)
-Definition recorded_by_put (o : obj) : Prop := exists p, parts o = [p] /\ oetag o = Single (rec p).
-Definition recorded_by_multipart (o : obj) : Prop := oetag o = Multi (map rec (parts o)).
+(* ---- how the storage records object checksums (classes of objects) ---- *)
+Definition recs (o : obj) : list N := map rec (parts o).
+Definition opt_is (x : option cks) (v : cks) : Prop := x = None \/ x = Some v.
+(* PutObject, ranged CopyObject (and full copies of those): one part; ETag and checksum fields are the
+   part's plain digests; the checksum type is irrelevant *)
+Definition recorded_by_put (o : obj) : Prop :=
+  exists p, parts o = [p] /\ oetag o = Single (rec p) /\
+            opt_is (ocrc o) (Plain (rec p)) /\ opt_is (osha o) (Plain (rec p)).
+(* multipart upload with checksum type COMPOSITE (and full copies of it) *)
+Definition recorded_composite (o : obj) : Prop :=
+  otype o = TComp /\ oetag o = Multi (recs o) (length (parts o)) /\
+  opt_is (ocrc o) (Comp (recs o) (length (parts o))) /\ opt_is (osha o) (Comp (recs o) (length (parts o))).
+(* multipart upload with checksum type FULL_OBJECT or unspecified, AppendObject results (no CRC
+   recorded), and full copies of those; a recorded SHA field is never compared *)
+Definition recorded_full (o : obj) : Prop :=
+  otype o = TFull /\ oetag o = Multi (recs o) (length (parts o)) /\
+  (ocrc o = None \/ ocrc o = calc_comb (recs o)).
 
 Lemma part_ok_iff p : part_ok p = false <-> damaged p.
 Proof.
@@ -30,62 +51,140 @@ Proof.
     + intros [q [[<- | Hq] Hd]]; [left; exact Hd | right; exists q; auto].
 Qed.
 
-Lemma flags_iff_put o : recorded_by_put o -> (validate_object o = false <-> corrupted o).
-Proof.
-  intros [p [Hp He]]. unfold validate_object, corrupted. destruct (forallb part_ok (parts o)) eqn:F.
-  - split.
-    + intros H. exfalso. unfold object_ok in H. rewrite Hp, He in *. cbn in F. rewrite andb_true_r in F.
-      unfold part_ok in F. destruct (actual p) as [a|]; [|discriminate]. apply N.eqb_eq in F. subst a.
-      cbn in H. rewrite N.eqb_refl in H. discriminate.
-    + intros H. apply forallb_part_ok_false in H. congruence.
-  - split; [intros _; apply forallb_part_ok_false; exact F | reflexivity].
-Qed.
+Lemma opt_match_is x v : opt_is x v -> v <> GarbledC -> opt_match x (Some v) = true.
+Proof. intros [-> | ->] H; cbn; [reflexivity | apply cks_eqb_refl; exact H]. Qed.
 
-Lemma flags_iff_multi o : recorded_by_multipart o -> length (parts o) <> 1%nat ->
-  (validate_object o = false <-> corrupted o).
+(* when every part is fine, the object-level check passes for the three classes *)
+Lemma object_ok_put o : recorded_by_put o -> forallb part_ok (parts o) = true -> object_ok o = true.
 Proof.
-  intros He Hl. unfold validate_object, corrupted. destruct (forallb part_ok (parts o)) eqn:F.
-  - split.
-    + intros H. exfalso. unfold object_ok in H. rewrite He in H.
-      destruct (parts o) as [|p [|q r]] eqn:P; cbn in H, Hl; try congruence.
-      * rewrite !N.eqb_refl, Ns_eqb_refl in H. discriminate.
-    + intros H. apply forallb_part_ok_false in H. congruence.
-  - split; [intros _; apply forallb_part_ok_false; exact F | reflexivity].
+  intros [p [Hp [He [Hc Hs]]]] F. unfold object_ok. rewrite Hp in *. cbn in F. rewrite andb_true_r in F.
+  unfold part_ok in F. destruct (actual p) as [a|]; [|discriminate]. apply N.eqb_eq in F. subst a.
+  rewrite He. cbn [etag_eqb]. rewrite N.eqb_refl.
+  rewrite (opt_match_is _ _ Hc), (opt_match_is _ _ Hs) by discriminate. reflexivity.
+Qed.
+Lemma object_ok_composite o : recorded_composite o -> length (parts o) <> 1%nat -> object_ok o = true.
+Proof.
+  intros [Ht [He [Hc Hs]]] Hl. unfold object_ok, recs in *.
+  destruct (parts o) as [|p [|q r]] eqn:P; cbn [length] in Hl; try congruence;
+    rewrite Ht, He, etag_eqb_multi_refl, (opt_match_is _ _ Hc), (opt_match_is _ _ Hs) by discriminate; reflexivity.
+Qed.
+Lemma object_ok_full o : recorded_full o -> length (parts o) <> 1%nat -> object_ok o = true.
+Proof.
+  intros [Ht [He Hc]] Hl. unfold object_ok, recs in *.
+  destruct (parts o) as [|p [|q r]] eqn:P; cbn [length] in Hl; try congruence;
+    rewrite Ht, He, etag_eqb_multi_refl; cbn [andb].
+  - destruct Hc as [-> | ->]; reflexivity.
+  - destruct Hc as [-> | ->]; [reflexivity|]. cbn [map calc_comb opt_match]. apply cks_eqb_refl, mk_comb_not_garbled.
 Qed.
 
 Lemma flags_iff_stmt : forall o,
-  recorded_by_put o \/ (recorded_by_multipart o /\ length (parts o) <> 1%nat) ->
+  recorded_by_put o \/ ((recorded_composite o \/ recorded_full o) /\ length (parts o) <> 1%nat) ->
   (validate_object o = false <-> corrupted o).
-Proof. intros o [H | [H1 H2]]; [apply flags_iff_put | apply flags_iff_multi]; assumption. Qed.
-
-(* an intact multipart object with exactly one part is reported *)
-Definition one_part_multipart : obj := {| oetag := Multi [7]; parts := [{| rec := 7; actual := Some 7 |}] |}.
-Lemma one_part_multipart_flagged :
-  recorded_by_multipart one_part_multipart /\ validate_object one_part_multipart = false /\ ~ corrupted one_part_multipart.
 Proof.
-  split; [reflexivity|]. split; [reflexivity|]. intros [p [[<- | []] [H | [a [E H]]]]]; cbn in *; [discriminate|].
-  inversion E; subst. apply H. reflexivity.
+  intros o H. unfold validate_object, corrupted. destruct (forallb part_ok (parts o)) eqn:F.
+  - assert (object_ok o = true) as ->.
+    { destruct H as [H | [[H | H] Hl]];
+        [apply object_ok_put | apply object_ok_composite | apply object_ok_full]; assumption. }
+    split; [discriminate|]. intros C. apply forallb_part_ok_false in C. congruence.
+  - split; [intros _; apply forallb_part_ok_false; exact F | reflexivity].
 Qed.
 
-(* corrupted objects are always reported, whatever the recorded ETag form (no false negatives) *)
+(* an intact object with a multipart-style ETag and exactly one part is reported: FULL_OBJECT /
+   unspecified / append form and COMPOSITE form *)
+Definition one_part_full : obj :=
+  {| otype := TFull; oetag := Multi [7] 1; ocrc := None; osha := None; parts := [{| rec := 7; actual := Some 7 |}] |}.
+Definition one_part_composite : obj :=
+  {| otype := TComp; oetag := Multi [7] 1; ocrc := Some (Comp [7] 1); osha := Some (Comp [7] 1);
+     parts := [{| rec := 7; actual := Some 7 |}] |}.
+Lemma not_corrupted_7 o : parts o = [{| rec := 7; actual := Some 7 |}] -> ~ corrupted o.
+Proof.
+  intros P [p [Hin [H | [a [E H]]]]]; rewrite P in Hin; destruct Hin as [<- | []]; cbn in *; [discriminate|].
+  inversion E; subst. apply H. reflexivity.
+Qed.
+Lemma one_part_flagged :
+  (recorded_full one_part_full /\ validate_object one_part_full = false /\ ~ corrupted one_part_full) /\
+  (recorded_composite one_part_composite /\ validate_object one_part_composite = false /\ ~ corrupted one_part_composite).
+Proof.
+  split; (split; [repeat split; auto; right; reflexivity || (left; reflexivity) |]); (split; [reflexivity | apply not_corrupted_7; reflexivity]).
+Qed.
+
+(* corrupted objects are always reported, whatever was recorded (no false negatives) *)
 Lemma corrupted_reported : forall o, corrupted o -> validate_object o = false.
 Proof. intros o H. unfold validate_object. apply forallb_part_ok_false in H. rewrite H. reflexivity. Qed.
 
+(* ---- the object kinds of the harness fall into the classes ---- *)
+Lemma rec_resolve w ids : map rec (map (resolve w) ids) = ids.
+Proof. induction ids; cbn; congruence. Qed.
+
+Lemma put_in_class w id : recorded_by_put (to_obj w (put_spec id)).
+Proof. exists (resolve w id). cbn. split; [reflexivity|]. split; [reflexivity|]. split; right; reflexivity. Qed.
+Lemma composite_in_class w ids : recorded_composite (to_obj w (multipart_spec TComp ids)).
+Proof.
+  unfold recorded_composite, recs. cbn. rewrite rec_resolve, map_length.
+  split; [reflexivity|]. split; [reflexivity|]. split; right; reflexivity.
+Qed.
+Lemma full_in_class w ids : recorded_full (to_obj w (multipart_spec TFull ids)).
+Proof.
+  unfold recorded_full, recs. cbn. rewrite rec_resolve, map_length.
+  split; [reflexivity|]. split; [reflexivity|]. right; reflexivity.
+Qed.
+Lemma append_in_class w ids : recorded_full (to_obj w (append_spec ids)).
+Proof.
+  unfold recorded_full, recs. cbn. rewrite rec_resolve, map_length.
+  split; [reflexivity|]. split; [reflexivity|]. left; reflexivity.
+Qed.
+
+Lemma kinds_in_classes : forall w,
+  (forall id, recorded_by_put (to_obj w (put_spec id))) /\
+  (forall ids, recorded_composite (to_obj w (multipart_spec TComp ids))) /\
+  (forall ids, recorded_full (to_obj w (multipart_spec TFull ids))) /\
+  (forall ids, recorded_full (to_obj w (append_spec ids))) /\
+  (forall s, length (parts (to_obj w s)) = length (sids s)).
+Proof.
+  intros w. split; [apply put_in_class|]. split; [apply composite_in_class|]. split; [apply full_in_class|].
+  split; [apply append_in_class|]. intros s. cbn. apply map_length.
+Qed.
+
+(* parts are shared between objects (deduplication, full copies): a modified part file makes EVERY
+   object that references it reported — a verdict may not be reused for the bytes of another object
+   unless it is the verdict of these very bytes *)
+Lemma shared_part_corrupts_all : forall w s id v,
+  In id (sids s) -> wfind w id = Some v -> (v = None \/ exists a, v = Some a /\ a <> id) ->
+  validate_object (to_obj w s) = false.
+Proof.
+  intros w s id v Hin Hw Hv. apply corrupted_reported. exists (resolve w id). split.
+  - cbn. apply in_map. exact Hin.
+  - unfold damaged, resolve. cbn. rewrite Hw. destruct Hv as [-> | [a [-> Ha]]]; [left; reflexivity | right; exists a; auto].
+Qed.
+
+(* a COMPOSITE object (>= 2 parts, CRC recorded) whose checksum type says FULL_OBJECT is reported although
+   its bytes are intact: the validator is right to flag the record, the writer of the record is wrong *)
+Lemma retyped_composite_reported : forall o,
+  recorded_composite o -> (2 <= length (parts o))%nat -> ocrc o = Some (Comp (recs o) (length (parts o))) ->
+  validate_object {| otype := TFull; oetag := oetag o; ocrc := ocrc o; osha := osha o; parts := parts o |} = false.
+Proof.
+  intros o [Ht [He _]] Hl Hc. unfold validate_object. cbn [parts].
+  destruct (forallb part_ok (parts o)); [|reflexivity].
+  unfold object_ok. cbn [parts otype oetag ocrc]. unfold recs in *.
+  destruct (parts o) as [|p [|q r]] eqn:P; cbn [length] in Hl; try lia.
+  rewrite He, etag_eqb_multi_refl, Hc. reflexivity.
+Qed.
+
 (* ValidateAll: deletions only of reported objects, only in delete mode, one result per object *)
+Definition dflt : obj := {| otype := TFull; oetag := Multi [] 0; ocrc := None; osha := None; parts := [] |}.
 Lemma deletes_only_flagged_stmt : forall l del objs rs,
   validate_all l del objs = Some rs ->
   length rs = length objs /\
   forall i, (i < length objs)%nat ->
-    fst (nth i rs (true, false)) = validate_object (nth i objs {| oetag := Multi []; parts := [] |}) /\
+    fst (nth i rs (true, false)) = validate_object (nth i objs dflt) /\
     (snd (nth i rs (true, false)) = true -> del = true /\ fst (nth i rs (true, false)) = false).
 Proof.
   intros l del objs rs H. unfold validate_all in H. destruct (find_part_store l); [|discriminate].
   inversion H; subst. clear H. split; [apply map_length|]. intros i Hi.
-  set (d := {| oetag := Multi []; parts := [] |}).
-  rewrite (nth_indep _ (true, false) ((fun o => let s := validate_object o in (s, negb s && del)) d)) by (rewrite map_length; exact Hi).
+  rewrite (nth_indep _ (true, false) ((fun o => let s := validate_object o in (s, negb s && del)) dflt)) by (rewrite map_length; exact Hi).
   rewrite (map_nth (fun o => let s := validate_object o in (s, negb s && del))). cbn.
   split; [reflexivity|]. intros E. apply andb_true_iff in E. destruct E as [E1 E2].
-  split; [exact E2|]. destruct (validate_object (nth i objs d)); [discriminate | reflexivity].
+  split; [exact E2|]. destruct (validate_object (nth i objs dflt)); [discriminate | reflexivity].
 Qed.
 
 (* on the storage the server builds ValidateAll runs, and its verdicts are validateObject's *)
@@ -98,29 +197,25 @@ Proof. reflexivity. Qed.
 Lemma validate_all_failed_before_fix : forall del objs, validate_all (L false []) del objs = None.
 Proof. reflexivity. Qed.
 
-(* the search does find a part store that is a direct field of the storage or of a wrapped storage *)
 Lemma find_part_store_spec : forall d inner,
   find_part_store (L d inner) = true <-> d = true \/ exists l, In l inner /\ find_part_store l = true.
-Proof.
-  intros d inner. cbn. rewrite orb_true_iff, existsb_exists. tauto.
-Qed.
+Proof. intros d inner. cbn. rewrite orb_true_iff, existsb_exists. tauto. Qed.
 
 Lemma validate_all_exact_stmt : forall del objs rs,
-  Forall (fun o => recorded_by_put o \/ (recorded_by_multipart o /\ length (parts o) <> 1%nat)) objs ->
+  Forall (fun o => recorded_by_put o \/ ((recorded_composite o \/ recorded_full o) /\ length (parts o) <> 1%nat)) objs ->
   validate_all current_layout del objs = Some rs ->
   length rs = length objs /\
   forall i, (i < length objs)%nat ->
-    let o := nth i objs {| oetag := Multi []; parts := [] |} in
+    let o := nth i objs dflt in
     (fst (nth i rs (true, false)) = false <-> corrupted o) /\
     (snd (nth i rs (true, false)) = true <-> corrupted o /\ del = true).
 Proof.
   intros del objs rs HF H. rewrite validate_all_runs_stmt in H. inversion H; subst. clear H.
   split; [apply map_length|]. intros i Hi.
-  set (d := {| oetag := Multi []; parts := [] |}).
   set (f := fun o => (validate_object o, negb (validate_object o) && del)).
-  rewrite (nth_indep _ (true, false) (f d)) by (rewrite map_length; exact Hi).
+  rewrite (nth_indep _ (true, false) (f dflt)) by (rewrite map_length; exact Hi).
   rewrite (map_nth f). cbn.
-  assert (Hw : validate_object (nth i objs d) = false <-> corrupted (nth i objs d)).
+  assert (Hw : validate_object (nth i objs dflt) = false <-> corrupted (nth i objs dflt)).
   { apply flags_iff_stmt. rewrite Forall_forall in HF. apply HF. apply nth_In. exact Hi. }
   split; [exact Hw|]. rewrite andb_true_iff, negb_true_iff, Hw. tauto.
 Qed.
